@@ -9,11 +9,11 @@ cp /repo/Cargo.lock harness/Cargo.lock 2>/dev/null || true
 (cd harness && CARGO_TARGET_DIR=/verif/.cache/cargo-target RUSTFLAGS="--cfg lambda_calculus_verif" cargo build --release --offline --quiet)
 (cd harness && CARGO_TARGET_DIR=/verif/.cache/cargo-target-bs RUSTFLAGS="--cfg lambda_calculus_verif" cargo build --release --offline --quiet --features backslash)
 # 2. generated Coq sources (term constants of the data modules)
-if [ -x lib/gen_terms.sh ]; then lib/gen_terms.sh; fi
+python3 lib/gen.py /verif/.cache/cargo-target/release
 # 3. the Coq development, full .vo build
 (cd coq && coq_makefile -f _CoqProject -o Makefile >/dev/null && timeout 7000 make -j16 >/dev/null)
 # 4. extraction + OCaml driver
 (cd ocaml && coqc -noglob -Q ../coq/theories LC ../coq/theories/Extract/Extract.v >/dev/null && \
-  ocamlfind ocamlopt -O3 -w -a -package str lc_model.mli lc_model.ml common.ml extra.ml driver.ml -o driver)
+  ocamlfind ocamlopt -O3 -w -a -package str lc_model.mli lc_model.ml common.ml gen_table.ml extra.ml driver.ml -o driver)
 rm -f .cache/driver.stamp
 echo setup-ok
